@@ -78,6 +78,9 @@ pub enum Mode {
     Plain,
     /// retry with 2 attempts / hedge with 2 parallel attempts / reconnect with 1 retry
     Multiply,
+    /// the same with the other timing: retry and reconnect with a *zero* backoff, hedge in
+    /// latency mode (1 ms delay)
+    MultiplyAlt,
     /// non-triggering, but with extreme-yet-valid settings (Duration::MAX timeouts, waits,
     /// delays and TTLs, very large limits): "never" must really mean never, not a panic
     Extreme,
@@ -201,6 +204,7 @@ pub fn build<S: Inner>(mw: Mw, mode: Mode, inner: S, ls: Option<Arc<Listeners>>)
             b = match mode {
                 Mode::Plain => b.max_attempts(1),
                 Mode::Multiply => b.max_attempts(2),
+                Mode::MultiplyAlt => b.max_attempts(2).fixed_backoff(Duration::ZERO),
                 Mode::Extreme => b.max_attempts(usize::MAX).fixed_backoff(Duration::MAX).retry_on(|_e: &InnerErr| false),
             };
             if let Some(ls) = &ls {
@@ -262,6 +266,7 @@ pub fn build<S: Inner>(mw: Mw, mode: Mode, inner: S, ls: Option<Arc<Listeners>>)
             b = match mode {
                 Mode::Plain => b.max_hedged_attempts(1),
                 Mode::Multiply => b.max_hedged_attempts(2),
+                Mode::MultiplyAlt => b.delay(Duration::from_millis(1)).max_hedged_attempts(2),
                 // a hedge that is never due: the primary's answer is the answer
                 Mode::Extreme => b.delay(Duration::MAX).max_hedged_attempts(1),
             };
@@ -283,6 +288,7 @@ pub fn build<S: Inner>(mw: Mw, mode: Mode, inner: S, ls: Option<Arc<Listeners>>)
             let cfg = match mode {
                 Mode::Plain => ReconnectConfig::builder().policy(ReconnectPolicy::fixed(Duration::from_millis(1))).max_attempts(1).reconnect_predicate(|_e: &dyn std::error::Error| false).build(),
                 Mode::Multiply => ReconnectConfig::builder().policy(ReconnectPolicy::fixed(Duration::from_millis(1))).max_attempts(1).build(),
+                Mode::MultiplyAlt => ReconnectConfig::builder().policy(ReconnectPolicy::fixed(Duration::ZERO)).max_attempts(2).build(),
                 Mode::Extreme => ReconnectConfig::builder().policy(ReconnectPolicy::fixed(Duration::MAX)).max_attempts(u32::MAX).reconnect_predicate(|_e: &dyn std::error::Error| false).build(),
             };
             erase(ReconnectLayer::new(cfg).layer(inner), |e| map_std_err(e, &["service error", "max reconnection attempts", "connection failed"]))
